@@ -206,4 +206,32 @@ theorem response_wire_roundtrip (pieces : List Bytes) (tail : Bytes) (sizes : Li
 example : bodyWire true [[97, 98], [], [99]] = [50, 13, 10, 97, 98, 13, 10, 49, 13, 10, 99, 13, 10, 48, 13, 10, 13, 10] := by
   rfl
 
+/-! ### request headers -> environ (`make_environ`; input = the headers as http.server parsed them) -/
+
+/-- **Underscore names never reach the environ**: the folded environ is the same as if the headers
+whose name contains `_` had not been sent — `User_Agent` cannot shadow or extend `User-Agent`. -/
+theorem underscore_headers_ignored (hs : List (Str × Str)) :
+    foldHeaders hs = foldHeaders (hs.filter fun h => !h.1.contains '_') :=
+  foldl_foldHeader_filter hs []
+
+/-- **Repeated headers are comma-joined in order**: for every header list and every environ name `k`
+other than CONTENT_TYPE / CONTENT_LENGTH, `environ["HTTP_" + k]` is absent when no dash-named header
+maps to `k`, and otherwise is the first such value followed by `"," + value` for each later one
+(values with embedded line folds `\r\n` removed) — nothing else contributes to it. -/
+theorem header_folding (hs : List (Str × Str)) (k : Str) (hk : isContentKey k = false) :
+    (foldHeaders hs).get ("HTTP_".toList ++ k) =
+      match valuesFor k hs with
+      | [] => none
+      | v :: vs => some (v ++ vs.flatMap (fun x => ',' :: x)) := by
+  have h := foldl_foldHeader_get k hk hs []
+  simp only [foldHeaders, h]
+  cases valuesFor k hs with
+  | nil => rfl
+  | cons v vs =>
+    show joinFrom (joinStep none v) vs = _
+    exact joinFrom_some v vs
+
+example : foldHeaders [("X-A".toList, "1".toList), ("X_A".toList, "2".toList), ("x-a".toList, "3".toList)]
+    = [("HTTP_X_A".toList, "1,3".toList)] := by decide
+
 end Wz.Props.C19
